@@ -1,4 +1,5 @@
 import AdaVerif.Model.Pattern
+import AdaVerif.Lemmas.PatternCanon
 /-
 C14 — URLPattern matching is coherent and independent of internal shortcuts.
 
@@ -131,5 +132,45 @@ theorem toy_lawful : Lawful toyProvider where
 
 example : fastMatch toyProvider (compile [⟨.fullWildcard, [], .none, [0x72], [], []⟩] false) [0x61, 0x2F, 0x62] =
     some [some [0x61, 0x2F, 0x62]] := by decide +kernel
+
+/-! ### the component inputs of a URL-string input -/
+
+open AdaVerif.Spec AdaVerif.Model.Agg AdaVerif.Lemmas AdaVerif.Lemmas.AggL AdaVerif.Model.PatternCanon in
+/-- **the component inputs `match()` / `test()` read off the parsed input are the components of the URL it denotes**: for the
+    single buffer that holds the Standard's record `u` (what `ada::parse<url_aggregator>` leaves - C01 / C04), the eight strings
+    taken by `get_protocol()` minus ':', `get_username()`, `get_password()`, `get_hostname()`, `get_port()`, `get_pathname()`,
+    `get_search()` minus '?' (when `has_search()`), `get_hash()` minus '#' (when `has_hash()`) are the scheme, the credentials,
+    the serialised host (empty when null), the port in decimal (empty when null), the serialised path, the query and the
+    fragment (empty when null).  The host condition says a serialised host never starts with '@' (`PA.host_no_at`: true of
+    every host the host parser returns). -/
+theorem url_string_inputs_are_components (u : Url) (hinv : RecInv u = true)
+    (hh : ∀ h, u.host = some h → h.serialize.headD 0 ≠ 0x40) :
+    urlInputs (layout (ofUrl u)) =
+      [u.scheme, u.username, u.password, (match u.host with | some h => h.serialize | none => []),
+       (match u.port with | some p => natToDec p | none => []), u.pathSerialized, u.query.getD [], u.fragment.getD []] := by
+  have ok := credOk_of_recInv u hinv
+  have hna := noAuthNoCred_ofUrl u ok
+  have hpd : (ofUrl u).port.isSome = true → (ofUrl u).dashdot = false := by
+    intro hp
+    cases hhost : u.host with
+    | none =>
+      have : u.port = none := (ok.hostless hhost).2.2
+      simp [ofUrl, this] at hp
+    | some h => simp [ofUrl, hhost]
+  have hhd : (ofUrl u).user = [] → (ofUrl u).pass = [] → (ofUrl u).host.headD 0 ≠ 0x40 := by
+    intro _ _
+    cases hhost : u.host with
+    | none => simp [ofUrl, hhost]
+    | some h => simpa [ofUrl, hhost] using hh h hhost
+  rw [PC.urlInputs_layout (ofUrl u) hna hpd hhd]
+  cases hp : u.port <;> cases hhost : u.host <;> simp [ofUrl, hp, hhost]
+
+open AdaVerif.Spec AdaVerif.Model.Agg AdaVerif.Lemmas.AggL AdaVerif.Model.PatternCanon in
+example :
+    let u : Url := { scheme := ofStr "https", username := ofStr "u", host := some (.domain (ofStr "h.example")), port := some 8080,
+                     path := [ofStr "a", ofStr "b"], query := some (ofStr "q=1"), fragment := some [] }
+    RecInv u = true ∧
+    urlInputs (layout (ofUrl u)) = [ofStr "https", ofStr "u", [], ofStr "h.example", ofStr "8080", ofStr "/a/b", ofStr "q=1", []] := by
+  decide +kernel
 
 end AdaVerif.Props.C14
